@@ -7,6 +7,7 @@ import (
 	"log"
 	"runtime"
 	"runtime/debug"
+	"sort"
 
 	"github.com/robfig/soy/ast"
 	"github.com/robfig/soy/data"
@@ -209,9 +210,16 @@ func (s *state) walk(node ast.Node) {
 		}
 		s.val = data.List(items)
 	case *ast.MapLiteralNode:
+		// (in the order of the sorted keys: when several values fail, the same
+		// one fails every time.)
+		var keys = make([]string, 0, len(node.Items))
+		for k := range node.Items {
+			keys = append(keys, k)
+		}
+		sort.Strings(keys)
 		var items = make(data.Map, len(node.Items))
-		for k, v := range node.Items {
-			items[k] = s.eval(v)
+		for _, k := range keys {
+			items[k] = s.eval(node.Items[k])
 		}
 		s.val = data.Map(items)
 	case *ast.FunctionNode:
